@@ -9,10 +9,13 @@ CID = "C03"
 def run(ctx):
     ctx.assumptions += ["model = coq/Model/Broker.v version V1 (hand written); critical sections atomic; timers may fire at any step",
                         "tie = scenario correspondence (forced-order scripts replayed in the extracted model) + property predicates on herds",
-                        "container/heap modelled relationally (pop returns some minimum); Go scheduler/timers not verified"]
+                        "matching pool relational in Model/Broker.v; the array SnowflakeHeap (Model/BrokerHeap.v) is proved to refine it and is run against snowflake-heap.go (`broker heap`); Go scheduler/timers not verified"]
     ctx.trusted.append("harness/overlay/broker/zz_verif_broker_test.go scenario driver; lib/checks/brokerlib.py label derivation")
     scens = brokerlib.scenarios(ctx.rng, ctx.tier)
     brokerlib.run_scenarios(ctx, scens, {CID}, "broker-scenarios")
+    # the array heap: Model/BrokerHeap.v xstep (proved index-consistent, heap ordered and a refinement of the
+    # relational pool) against the real SnowflakeHeap on scripted Push/Pop/Remove/Fix sequences
+    brokerlib.run_heap(ctx)
 
 
 def replay(ctx, doc):
